@@ -69,8 +69,13 @@ pub fn nav_mut<'a, P: TP, V: Val>(
             scope = k;
         }
         v = match n {
-            Nav::At(p) => {
-                let (q, _) = rs::<P>(env, *p);
+            Nav::At(_) | Nav::AtCut(..) | Nav::AtRaw(_) => {
+                let q: P = match n {
+                    Nav::AtRaw(r) => mk(*r),
+                    Nav::AtCut(p, k) => mk(resolve_cut(&env.uni, *p, *k, P::W)),
+                    Nav::At(p) => rs::<P>(env, *p).0,
+                    _ => unreachable!(),
+                };
                 env.cur_op = "view_mut_at";
                 match v.view_mut_at(q) {
                     Some(x) => x,
